@@ -390,10 +390,6 @@ def call_gradient(F, coord, form, shift):
     return mep.gradient.central_difference(F.f, arg, **kw)
 
 
-def vnorm(x):
-    return float(np.sqrt((np.asarray(x, float) ** 2).sum(axis=-1)).max()) if np.ndim(x) else abs(float(x))
-
-
 @chk.clause('gradient')
 def gradient(case):
     F = FUNCS[case['fn']]
@@ -719,8 +715,9 @@ def opt_classes(case):
 
 
 def reference_step_coord(S, start, ic, gc):
-    """coordinates after integration (before re-spacing) are not observable; the oracle is therefore
-    the option-equivalence class: the canonical spelling of the same class"""
+    """step() / step(climbindex=middle) of a path built with explicit callables and an explicit shift: the canonical
+    spelling of an option-equivalence class (the re-spacing of step() is not part of the property, so the oracle for
+    the option clauses is equivalence of spellings, not an independent step)"""
     kw = {'integratorfxn': mep.integrator.euler if ic == 'euler' else mep.integrator.rungekutta}
     if gc == 'analytic':
         kw['gradientfxn'] = analytic_gradientfxn(S)
